@@ -282,9 +282,27 @@ class CSSImportRule(cssrule.CSSRule):
         self._checkReadonly()
         self._loadHref(href)
 
-    def _loadHref(self, href):
+    def _absoluteHref(self):
+        """Return the URL `href` refers to from the parent sheet
+        (a malformed URL raises ValueError)."""
+        parentHref = self.parentStyleSheet.href
+        if parentHref is None:
+            # use cwd instead
+            parentHref = cssutils.helper.path2url(os.getcwd()) + '/'
+        return urllib.parse.urljoin(parentHref, self.href)
+
+    def _loadHref(self, href, retry=True):
         """Set `href` and load the style sheet it refers to. Not checking
-        readonly as also used by the parent sheet when inserting this rule."""
+        readonly as also used by the parent sheet when inserting this rule,
+        which with ``retry=False`` does not fetch a second time from a URL
+        which could not be read."""
+        if not retry and href == self.href and self._hrefTried is not None:
+            try:
+                if self._absoluteHref() == self._hrefTried:
+                    return
+            except ValueError:
+                pass
+
         # set new href
         self._href = href
         # update seq
@@ -298,20 +316,15 @@ class CSSImportRule(cssrule.CSSRule):
             media=self.media, ownerRule=self, title=self.name
         )
         self.hrefFound = False
+        self._hrefTried = None
         # set styleSheet
         if href and self.parentStyleSheet:
             # loading errors are all catched!
 
-            # relative href
-            parentHref = self.parentStyleSheet.href
-            if parentHref is None:
-                # use cwd instead
-                parentHref = cssutils.helper.path2url(os.getcwd()) + '/'
-
             # all possible exceptions are ignored
             try:
-                # (a malformed URL raises ValueError)
-                fullhref = urllib.parse.urljoin(parentHref, self.href)
+                # relative href
+                fullhref = self._hrefTried = self._absoluteHref()
 
                 # a sheet importing itself or a sheet it is imported from
                 # would never end
@@ -363,6 +376,7 @@ class CSSImportRule(cssrule.CSSRule):
         self._styleSheet = importedSheet
 
     _href = None  # needs to be set
+    _hrefTried = None  # URL the style sheet was loaded from, or not
     href = property(
         lambda self: self._href,
         _setHref,
